@@ -217,4 +217,10 @@ example :
     splitServices, aerase, selectService, serviceName, truthyName, finalConfig, extractRunArgs,
     Except.toOption, bind, Except.bind, pure, Except.pure]
 
+/-- The files are merged strictly from left to right: one more file is merged over the result of all the earlier ones
+(never the other way round - merging is not associative, `C17_not_associative`). -/
+theorem C16_files_left_to_right (files : List Dict) (last : Dict) (sets : List (String × Option Cfg)) :
+    loadConfig (files ++ [last]) sets = applySets (merge (files.foldl merge []) last) sets := by
+  simp [loadConfig, List.foldl_append]
+
 end Asphalt
